@@ -571,6 +571,7 @@ def run_real(text, presets):
 
 
 def unhold(h):
+    if type(h).__name__ == 'RangeHolder': return h.range
     v = getattr(h, 'held_object', h)
     if isinstance(v, (list, tuple)): return [unhold(x) for x in v]
     if isinstance(v, dict): return {k: unhold(x) for k, x in v.items()}
@@ -961,7 +962,7 @@ def ob_numbers():
 def ob_control():
     def h():
         P = {'I0': sym_int('I0'), 'I1': sym_int('I1'), 'I2': sym_int('I2', 0, 3), 'I3': sym_int('I3', -1, 4), 'I4': sym_int('I4', 0, 3), 'B0': sym_bool('B0'), 'B1': sym_bool('B1')}
-        k = choose(7, 'prog')
+        k = choose(10, 'prog')
         i0, i1, i2, b0, b1 = ('var', 'I0'), ('var', 'I1'), ('var', 'I2'), ('var', 'B0'), ('var', 'B1')
         progs = [
             [('if', [(b0, [('assign', 'x', ('num', 1))]), (b1, [('assign', 'x', ('num', 2))])], [('assign', 'x', ('num', 3))])],
@@ -973,6 +974,14 @@ def ob_control():
             [('assign', 't', ('num', 0)), ('foreach', ['i'], ('call', 'range', [i2], {}), [('pluseq', 't', ('var', 'i'))])],
             [('assign', 'a', ('arr', [i0, i1])), ('foreach', ['i'], ('var', 'a'), [('pluseq', 'a', ('var', 'i'))]), ('assign', 'n', ('meth', ('var', 'a'), 'length', [], {}))],
             [('assign', 't', ('arr', [])), ('foreach', ['i'], ('call', 'range', [i2, ('var', 'I3'), ('var', 'I4')], {}), [('pluseq', 't', ('var', 'i'))]), ('continue',)],
+            # a range() kept in a variable is a VALUE: every loop over it - a second one, one after a break, a nested one, one through another name - sees all of it
+            [('assign', 'r', ('call', 'range', [i2], {})), ('assign', 't', ('num', 0)), ('assign', 'u', ('num', 0)),
+             ('foreach', ['i'], ('var', 'r'), [('if', [(('bin', '==', ('var', 'i'), ('var', 'I4')), [('break',)])], None), ('pluseq', 't', ('var', 'i'))]),
+             ('foreach', ['j'], ('var', 'r'), [('pluseq', 'u', ('var', 'j'))])],
+            [('assign', 'r', ('call', 'range', [i2], {})), ('assign', 't', ('num', 0)),
+             ('foreach', ['i'], ('var', 'r'), [('foreach', ['j'], ('var', 'r'), [('pluseq', 't', ('num', 1))])])],
+            [('assign', 'r', ('call', 'range', [i2, ('var', 'I3')], {})), ('assign', 's', ('var', 'r')), ('assign', 't', ('arr', [])), ('assign', 'u', ('arr', [])),
+             ('foreach', ['i'], ('var', 'r'), [('pluseq', 't', ('var', 'i'))]), ('foreach', ['i'], ('var', 's'), [('pluseq', 'u', ('var', 'i'))])],
         ]
         differential(progs[k], P)
     return h
